@@ -49,19 +49,19 @@ fn check_result<const N: usize>(r: &Result<Option<Frame>, RequestError>, want: R
     }
 }
 
-fn parser_split<const N: usize>() {
+fn parser_split<const N: usize>(any_offset: bool) {
     let s: [u8; N] = kani::any();
     let len: usize = kani::any();
     kani::assume(len <= N);
-    let begin: usize = kani::any();
+    // any_offset: the stream sits at EVERY offset of the 260-byte array (650-980 s, thorough tier);
+    // otherwise at offset 0 - the accessors the parser uses are decided for every offset by c05_buffer_accessors
+    let begin: usize = if any_offset { kani::any() } else { 0 };
     kani::assume(begin <= CAP && len <= CAP - begin);
     // first the parser sees only k bytes, then the rest: the result must be that of the whole stream
     let k: usize = kani::any();
     kani::assume(k <= len);
     let level = any_decode_level();
     let mut buf = buffer_with(&s, k, begin);
-    // the remaining bytes are already in the backing array (as a later read would put them there)
-    let mut rest = buffer_with(&s, len, begin);
     let mut p = MbapParser::new();
     let r1 = p.parse(&mut buf, level.frame);
     let w1 = ref_mbap(&s, k);
@@ -96,19 +96,42 @@ fn parser_split<const N: usize>() {
             kani::cover!(be16(s[2], s[3]) == 0 && be16(s[4], s[5]) == 255, "length 255");
         }
     }
-    std::mem::forget(rest);
+}
+
+//@ props: C05 C07~ C20~
+//@ peer: yes
+//@ tier: thorough
+//@ timeout: 3600
+//@ fns: tcp::frame::MbapParser::parse, MbapParser::parse_header, MbapParser::parse_body, common::buffer::ReadBuffer::read / read_u8 / read_u16_be / len, common::frame::Frame::set
+//@ bounds: every stream of 0..=10 bytes placed at EVERY offset of the 260-byte buffer (arbitrary residue elsewhere), every split point k of the delivery, all decode levels; frames with up to 3 body bytes complete within the bound; unwind 14
+//@ outside: bodies longer than 3 bytes in the quick tier (thorough: 12-byte streams; c05_parser_max_frame covers the 253-byte body); TLS record layer
+#[kani::proof]
+#[kani::unwind(14)]
+fn c05_parser_split_any_offset_t() {
+    parser_split::<10>(true);
 }
 
 //@ props: C05 C07 C20
 //@ peer: yes
-//@ timeout: 1200
-//@ fns: tcp::frame::MbapParser::parse, MbapParser::parse_header, MbapParser::parse_body, common::buffer::ReadBuffer::read / read_u8 / read_u16_be / len, common::frame::Frame::set
-//@ bounds: every stream of 0..=12 bytes placed at EVERY offset of the 260-byte buffer (arbitrary residue elsewhere), every split point k of the delivery, all decode levels; frames with up to 5 body bytes complete within the bound
-//@ outside: bodies longer than 5 bytes in this harness (c05_parser_max_frame covers the 253-byte body); TLS record layer
+//@ tier: thorough
+//@ timeout: 3600
+//@ fns: tcp::frame::MbapParser::parse, MbapParser::parse_header, MbapParser::parse_body
+//@ bounds: every stream of 0..=12 bytes at every buffer offset, every split point (measured 650-720 s); unwind 14
+#[kani::proof]
+#[kani::unwind(14)]
+fn c05_parser_split_t() {
+    parser_split::<12>(true);
+}
+
+//@ props: C05 C07 C20
+//@ peer: yes
+//@ timeout: 900
+//@ fns: tcp::frame::MbapParser::parse, MbapParser::parse_header, MbapParser::parse_body, common::frame::Frame::set
+//@ bounds: every stream of 0..=10 bytes at buffer offset 0 (residue elsewhere arbitrary), every split point k of the delivery, all decode levels; offset-independence of the accessors: c05_buffer_accessors; every offset: thorough tier; unwind 14
 #[kani::proof]
 #[kani::unwind(14)]
 fn c05_parser_split_q() {
-    parser_split::<12>();
+    parser_split::<10>(false);
 }
 
 //@ props: C05 C07
